@@ -74,6 +74,8 @@ inductive Op
   | mhaskey (m : String) (k : Int) | mhasval (m : String) (v : Int) | msize (m : String) | mget (m : String) (k : Int)
   | mrel (m arg : String) (sup : Bool)
   | keys (dst m : String) | vals (dst m : String)
+  -- SimpleHTTP interceptor bookkeeping (family `H:`; an instance is created by `http` = `sfrom`)
+  | hadd (h : String) (ids : List Int) | hrem (h : String) (ids : List Int) | hclear (h : String)
   | bad
 deriving Repr
 
@@ -82,6 +84,9 @@ def Op.isMutator (iface : Bool) : Op → Bool
   | .wr .. => true
   | .mset .. => true
   | .tset .. => true
+  | .hadd .. => true
+  | .hrem .. => true
+  | .hclear .. => true
   | .s1 _ _ (.remove _) => iface
   | _ => false
 
@@ -351,6 +356,18 @@ def exec (iface : Bool) (st : State) : Op → Res
     match st.find m with
     | some (.set p) => let (w, a) := st.w.setValues p; .ok w (some (dst, .arr a false)) "ok"
     | _ => .err "bad-ref"
+  | .hadd h ids =>
+    match findStr st h with
+    | some p => .ok (st.w.httpAdd p ids) none "ok"
+    | none => .err "bad-ref"
+  | .hrem h ids =>
+    match findStr st h with
+    | some p => .ok (st.w.httpRemove p ids) none "ok"
+    | none => .err "bad-ref"
+  | .hclear h =>
+    match findStr st h with
+    | some p => .ok (st.w.httpClear p) none "ok"
+    | none => .err "bad-ref"
   | .bad => .err "bad-op"
 
 def step (iface : Bool) (st : State) (op : Op) : State × String :=
@@ -429,6 +446,7 @@ def parseCreate (dst : String) : List String → Op
   | ["sub", src, lo, hi] => orBad do some (.sub dst src (← lo.toNat?) (← hi.toNat?))
   | ["from", a] => .sfrom dst a
   | ["fromv", a] => .sfrom dst a
+  | ["http", a] => .sfrom dst a
   | ["toarr", s] => .toArr dst s
   | ["map", s, f] => orBad do some (.s1 dst s (.map (← f.toNat?)))
   | ["filter", s, p] => orBad do some (.s1 dst s (.filter (← p.toNat?)))
@@ -487,6 +505,9 @@ def parsePlain : List String → Op
   | ["mget", m, k] => orBad do some (.mget m (← k.toInt?))
   | ["ssub", m, a] => .mrel m a false
   | ["ssuper", m, a] => .mrel m a true
+  | ["hadd", h, ids] => orBad do some (.hadd h (← parseInts ids))
+  | ["hrem", h, ids] => orBad do some (.hrem h (← parseInts ids))
+  | ["hclear", h] => .hclear h
   | _ => .bad
 
 def parseOp (tok : String) : Op :=
@@ -504,6 +525,7 @@ def parseCase (line : String) : Bool × List String :=
   let (iface, body) :=
     if line.startsWith "I: " then (true, (line.drop 3).toString)
     else if line.startsWith "G: " then (false, (line.drop 3).toString)
+    else if line.startsWith "H: " then (false, (line.drop 3).toString)
     else (false, line)
   (iface, ((body.splitOn ";").map (fun t => t.trimAscii.toString)).filter (· ≠ ""))
 
